@@ -34,3 +34,28 @@ package types
 //@   invariant[C13.cr.listed] forall(i, 0, rangeindex + 1, crHas(prices, crRule(p, feederID).SourceIDs[i]))
 //@ loop #4
 //@   invariant true
+
+// C12 (round ids of a token are consecutive, also across a feeder that is stopped and resumed): a feeder's end block is
+// never inside the submission window of a round - in particular not ON a round boundary, whose round would be counted by
+// the successor's start round id but never opened.
+//@ func (Params).Validate
+//@   flag noframe
+//@   flag pure=validate,Wrap,Wrapf
+//@ define pvF(p, i) = deref["x/oracle/types.TokenFeeder"](p.TokenFeeders[i])
+//@ loop #1
+//@   invariant true
+//@   step[C12.pv.endblock] rangeindex == 0 || pvF(p, rangeindex).EndBlock == 0 ||
+//@        wrapu(pvF(p, rangeindex).EndBlock - pvF(p, rangeindex).StartBaseBlock, 18446744073709551616) % pvF(p, rangeindex).Interval >= p.MaxNonce
+//@   step[C12.pv.interval] rangeindex == 0 || pvF(p, rangeindex).Interval >= 2 * p.MaxNonce
+//@ loop #2
+//@   invariant true
+//@ loop #3
+//@   invariant true
+//@ loop #4
+//@   invariant true
+//@ loop #5
+//@   invariant true
+//@ loop #6
+//@   invariant true
+//@ loop #7
+//@   invariant true
